@@ -113,6 +113,26 @@ def gen(rng, max_n=8, p_sel=0.3, p_fail=0.06, mixed=True):
     return sc
 
 
+def directed(rng):
+    """Hand-shaped families the random generator reaches too rarely; attributes and completion orders stay random."""
+    def node(preds=(), prio=0, seq=False, res="t", **kw):
+        return dict(preds=list(preds), prio=prio, seq=seq, res=res, fail=False, flag=None, ret="t", **kw)
+    out = []
+    for _ in range(6):
+        kind = rng.choice(["t", "a"])
+        k2 = rng.choice(["t", "a"]) if rng.random() < 0.3 else kind
+        # two workers a, b running, the sequential s the only (hence best) candidate; the first finisher releases a
+        # child that outranks s: the scheduler must start it next to the other worker, not keep draining for s
+        hi = rng.choice([4, 5, 9])
+        specs = [node(prio=3, res=kind), node(prio=3, res=k2), node(prio=rng.choice([0, 1, 2]), seq=True, res=rng.choice(["t", "a", "m"])),
+                 node(preds=[rng.choice([0, 1])], prio=hi, res=rng.choice(["t", "a"]))]
+        if rng.random() < 0.5:
+            specs.append(node(preds=[3], prio=0, res="t"))
+        out.append(dict(n=len(specs), specs=specs, maxc=rng.choice([3, 3, 4]), is_async=rng.random() < 0.3, sel=None, nested=False,
+                        script=dict(seed=rng.randrange(1 << 30))))
+    return out
+
+
 def effective(sc):
     """The scenario as it is executed: build-time attributes overridden by the reconfiguration, if any."""
     rc = sc.get("reconf")
